@@ -6,4 +6,5 @@ import (
 	_ "verif/h/c05"
 	_ "verif/h/c07"
 	_ "verif/h/c18"
+	_ "verif/h/c20"
 )
